@@ -116,7 +116,7 @@ def _mutate_one(o, tag):
         if k in "iu":
             o.flat[0] = o.flat[0] ^ 1
         elif k == "f":
-            o.flat[0] = -1.0 if o.flat[0] == 12345.0 else 12345.0
+            o.flat[0] = 54321.0 if o.flat[0] == 12345.0 else 12345.0   # stays a valid scale/variance
         elif k == "b":
             o.flat[0] = not o.flat[0]
         elif k == "O":
